@@ -433,6 +433,12 @@ def run_property(prop, tier, seed, jobs, write_baseline, t_start):
                                                                if reg.get(q) else "") for q in sorted(by_contract)]
     assumptions += ["bounded stand-in: " + b for b in sorted(bounds)]
     assumptions += ["parameter fixed to its default in the proof: " + d for d in sorted(defaulted)]
+    blocks = sorted(u["qual"] for u in units if "@" in u.get("qual", ""))
+    if blocks:
+        assumptions.append("block units %s: a statement list cut out of the real method on every run (pyvc/source.py BLOCKS; free variables checked "
+                           "against the declared parameters). The extraction drops the rest of the host method: each block contract is about ONE "
+                           "execution of the block from any state satisfying its precondition; that the precondition holds at every iteration of "
+                           "the enclosing loop of __allocate (the loop invariant connecting the blocks) is NOT proved" % ", ".join(blocks))
     for q, why in unsupported:
         assumptions.append("UNSUPPORTED (not verified): %s — %s" % (q, why))
     ev = {
